@@ -6,7 +6,7 @@
 (***************************************************************************)
 EXTENDS Project, TypeLang, Json
 
-CONSTANT Mode,   \* "disc" | "graphs3" | "edges" | "edges2" | "pairroots" | "layouts" | "derives" | "emits"
+CONSTANT Mode,   \* "disc" | "graphs3" | "edges" | "edges2" | "kinds" | "pairroots" | "layouts" | "derives" | "emits"
          EmitDepth \* 2 | 3 : deepest frame path of the emit cases
 VARIABLE c
 
@@ -14,9 +14,12 @@ VARIABLE c
 PathClasses == AcceptedPathClasses \cup RejectedPathClasses
 Attrs == CommandAttrs \cup OtherAttrs
 DiscCases ==
-    { [kind |-> "disc", pc |-> pc, parsable |-> pb, attr |-> a, pos |-> p, vis |-> v, async |-> as] :
+    { [kind |-> "disc", pc |-> pc, parsable |-> pb, attr |-> a, pos |-> p, vis |-> v, async |-> as, nm |-> nm] :
         pc \in PathClasses, pb \in BOOLEAN, a \in Attrs, p \in {"top", "mod", "impl"},
-        v \in {"pub", "crate", "private"}, as \in BOOLEAN }
+        v \in {"pub", "crate", "private"}, as \in BOOLEAN,
+        \* how the function's name is written: plainly, as a raw identifier (fn r#name: invoked as `name`), with a
+        \* leading underscore
+        nm \in {"plain", "raw", "underscore"} }
 
 \* ---- C07/C09: type graphs
 N3 == {"A", "B", "C"}
@@ -79,6 +82,26 @@ PairRootCases ==
       : ss \in {"param", "ret", "chan", "event"}, ps \in {"param", "ret", "chan", "event"},
         pc \in {"tup_ab", "tup_ba", "vec_tup", "hmap_ab", "opt_tup3"}, so \in {1, 2} }
 
+\* ---- C07: what KIND of serde type a reachable leaf is: a struct with named fields, a unit struct (`struct Ping;`),
+\* a struct with empty braces, a unit-variant enum.  Chain A -> B -> C and fan A -> {B, C}.
+NodeKinds == {"named", "unit", "empty_braces", "enum"}
+KindCases ==
+    { [kind |-> "graph", nodes |-> <<"A", "B", "C">>,
+       edges |-> [n \in N3 |-> {[ctx |-> cx, to |-> m, ty |-> Ty(cx, m)] : m \in sh[n]}],
+       serde |-> [n \in N3 |-> TRUE],
+       nodekind |-> [n \in N3 |-> IF sh[n] # {} THEN "named" ELSE IF n = "B" THEN kb ELSE kc],
+       roots |-> {[site |-> rsite, ctx |-> "direct", to |-> "A", ty |-> Node("A")]}]
+      : sh \in {Chain, Fan}, kb \in NodeKinds, kc \in NodeKinds, cx \in {"direct", "opt", "vec"},
+        rsite \in {"param", "ret", "chan", "event"} }
+    \cup
+    \* the leaf itself is the root (a command returning a unit struct, an event whose payload is one)
+    { [kind |-> "graph", nodes |-> <<"A", "B", "C">>,
+       edges |-> [n \in N3 |-> {}],
+       serde |-> [n \in N3 |-> TRUE],
+       nodekind |-> [n \in N3 |-> k],
+       roots |-> {[site |-> rsite, ctx |-> rcx, to |-> "A", ty |-> Ty(rcx, "A")]}]
+      : k \in NodeKinds, rsite \in {"param", "ret", "chan", "event"}, rcx \in {"direct", "opt", "vec"} }
+
 \* ---- C07: the same graphs spread over files.  `place` maps the command file ("cmd") and every type to one of four
 \* file slots; slot order is the order in which the analyser walks the files (path order), so all 256 assignments
 \* cover every relative order of "file that mentions a type" and "file that defines it", on chains (depth 2),
@@ -134,6 +157,7 @@ Space == CASE Mode = "disc"    -> DiscCases
            [] Mode = "layouts" -> LayoutCases
            [] Mode = "derives" -> DeriveCases
            [] Mode = "edges2"  -> Edges2Cases
+           [] Mode = "kinds"   -> KindCases
            [] Mode = "pairroots" -> PairRootCases
            [] Mode = "emits"   -> EmitCases
 Init == c \in Space
@@ -147,7 +171,8 @@ Out(x) == IF x.kind = "graph"
                 roots |-> LET rs == SetSeq(x.roots) IN
                           [i \in DOMAIN rs |-> IF "also" \in DOMAIN rs[i] THEN [rs[i] EXCEPT !.also = SetSeq(@)] ELSE rs[i]],
                 place |-> IF "place" \in DOMAIN x THEN x.place ELSE [n \in {"cmd"} |-> 1],
-                derive |-> IF "derive" \in DOMAIN x THEN x.derive ELSE [n \in {"-"} |-> "-"]]
+                derive |-> IF "derive" \in DOMAIN x THEN x.derive ELSE [n \in {"-"} |-> "-"],
+                nodekind |-> IF "nodekind" \in DOMAIN x THEN x.nodekind ELSE [n \in {"-"} |-> "-"]]
           ELSE x
 Emit == PrintT(<<"REPLAY", ToJson(Out(c))>>)
 =============================================================================
